@@ -194,7 +194,7 @@ func (c *Channel) exit(deleted bool) error {
 
 	if deleted {
 		// empty the queue (deletes the backend files, too)
-		c.Empty()
+		c.empty()
 		return c.backend.Delete()
 	}
 
@@ -203,7 +203,16 @@ func (c *Channel) exit(deleted bool) error {
 	return c.backend.Close()
 }
 
+// Empty discards everything the channel holds. It takes the exit lock exclusively, so it
+// waits for a requeue in progress (REQ, timeout scan, deferred scan: each holds the read
+// side from its pop to its put) instead of missing the message that is between the two
 func (c *Channel) Empty() error {
+	c.exitMutex.Lock()
+	defer c.exitMutex.Unlock()
+	return c.empty()
+}
+
+func (c *Channel) empty() error {
 	c.Lock()
 	defer c.Unlock()
 
